@@ -98,6 +98,8 @@ def check(an, rep, tier):
                               'the receiver of this draw is not derived from '
                               'teneva._rand(seed) / a generator parameter',
                               line=call.lineno, file=mod.path)
+    from .. import rules_api as _RA
+    _RA.check_memoised(prog, rep, modules=None)
     rep.floor('R-draw', 15, 'draw sites with decided provenance')
     rep.floor('R-seeded-fn', 11, 'seeded public functions analysed')
     rep.floor('R-defaults', 4, 'mutable default arguments')
